@@ -32,7 +32,7 @@ var (
 )
 
 const (
-	MaxTasks    = 64
+	MaxTasks    = 256
 	maxSwitches = 1 << 14
 )
 
@@ -100,6 +100,7 @@ var (
 	active   bool
 	cur      = -1
 	ntasks   int
+	nstatic  int // tasks created by the harness (the rest are library goroutines)
 	tasks    [MaxTasks]task
 	ctrl     task // controller's pipe + policy
 	gstep    uint64
@@ -524,12 +525,22 @@ func spawn(fn func()) int {
 	if !active || cur < 0 {
 		return -1
 	}
-	if ntasks >= MaxTasks {
-		os.Stdout.WriteString("SIM-TOO-MANY-GOROUTINES\n")
-		os.Exit(2)
+	// reuse the slot of a finished library goroutine (lowest first: deterministic)
+	i := -1
+	for k := nstatic; k < ntasks; k++ {
+		if tasks[k].state == 2 {
+			i = k
+			break
+		}
 	}
-	i := ntasks
-	ntasks++
+	if i < 0 {
+		if ntasks >= MaxTasks {
+			os.Stdout.WriteString("SIM-TOO-MANY-GOROUTINES\n")
+			os.Exit(2)
+		}
+		i = ntasks
+		ntasks++
+	}
 	Spawned++
 	tasks[i].state = 1
 	tasks[i].parkedSite = -1
@@ -538,7 +549,8 @@ func spawn(fn func()) int {
 	tasks[i].policy = tasks[cur].policy
 	tasks[i].ranges = 0
 	tasks[i].prio = int64(splitmix(&rng)>>1) | 1<<40
-	schCur[i] = 0
+	// schCur[i] is NOT reset: a reused slot continues in the explicit schedule
+	// after the entries of its previous incarnation
 	return i
 }
 
@@ -568,6 +580,7 @@ func Run(fns []func(), s Schedule, maxYields uint64) Result {
 		panic("simrt.Run: bad task count")
 	}
 	ntasks = len(fns)
+	nstatic = ntasks
 	for i := 0; i < ntasks; i++ {
 		tasks[i].state = 1
 		tasks[i].parkedSite = -1
